@@ -41,7 +41,7 @@ pub mod libc {
     pub const S_IFMT: u32 = 0o170000; pub const S_IFDIR: u32 = 0o040000; pub const S_IFREG: u32 = 0o100000; pub const S_IFLNK: u32 = 0o120000;
     pub const O_NOFOLLOW: i32 = 0o400000; pub const O_PATH: i32 = 0o10000000; pub const O_CREAT: i32 = 0o100; pub const O_CLOEXEC: i32 = 0o2000000;
     pub const O_DIRECTORY: i32 = 0o200000; pub const O_RDONLY: i32 = 0; pub const O_WRONLY: i32 = 1; pub const O_RDWR: i32 = 2; pub const O_ACCMODE: i32 = 3;
-    pub const O_APPEND: i32 = 0o2000; pub const O_TRUNC: i32 = 0o1000; pub const O_DIRECT: i32 = 0o40000;
+    pub const O_EXCL: i32 = 0o200; pub const O_APPEND: i32 = 0o2000; pub const O_TRUNC: i32 = 0o1000; pub const O_DIRECT: i32 = 0o40000;
     pub const F_SETFL: i32 = 4; pub const O_NONBLOCK: i32 = 0o4000; pub const AT_EMPTY_PATH: i32 = 0x1000; pub const AT_SYMLINK_NOFOLLOW: i32 = 0x100;
     pub const UTIME_NOW: i64 = 0x3fff_ffff; pub const UTIME_OMIT: i64 = 0x3fff_fffe;
     #[allow(non_camel_case_types)] pub type off64_t = i64;
